@@ -249,6 +249,22 @@ func c15check(cs c15case, vec []int, rank int) (fs []ev.Finding, accepted bool) 
 		return nil, false
 	}
 	vc := vecCase{Vector: vec}
+	// The generator's reading of its own text must be the parser's: the same password statements with the same
+	// passwords, in order. A filler such as `/*/` is a comment opener; alone it makes the text invalid, but when a
+	// later filler closes it, everything in between is comment and the text is a different, valid statement whose
+	// literal spans the generator does not know. Such texts are not cases.
+	var parsedPws []string
+	for _, st := range q.Statements {
+		switch s := st.(type) {
+		case *influxql.CreateUserStatement:
+			parsedPws = append(parsedPws, s.Password)
+		case *influxql.SetPasswordUserStatement:
+			parsedPws = append(parsedPws, s.Password)
+		}
+	}
+	if strings.Join(parsedPws, "\x00") != strings.Join(cs.pws, "\x00") {
+		return nil, false
+	}
 	// String() of every password statement
 	for _, st := range q.Statements {
 		var pw string
